@@ -44,7 +44,7 @@ def run(ctx, res):
         case = {"kind": kind, "files": [(n, len(c)) for n, c in files]}
         st.see(case, nontrivial=len(files) > 0)
         variants = {}
-        layouts = ["plain", "again", "verbose", "subdir", "dotted", "absolute", "old_target_short", "old_target_long"]
+        layouts = ["plain", "again", "verbose", "subdir", "dotted", "absolute", "old_target_short", "old_target_long", "old_archive"]
         for lay in layouts:
             d = ctx.fresh_dir()
             arc = "out." + kind
@@ -58,6 +58,15 @@ def run(ctx, res):
                 open(os.path.join(d, arc), "wb").write(b"old")
             if lay == "old_target_long":
                 open(os.path.join(d, arc), "wb").write(bytes([0xAA]) * 3000000)
+            if lay == "old_archive":
+                # a genuine older archive of the same kind, made from other (larger) sources, sits at the target path
+                od = os.path.join(d, "older")
+                os.makedirs(od)
+                with open(os.path.join(od, "older1.dat"), "wb") as f:
+                    f.write(bytes([0x5A]) * 6000)
+                with open(os.path.join(od, "older2.bin"), "wb") as f:
+                    f.write(bytes(range(256)) * 9)
+                create(kind, d, arc, ["older/older1.dat", "older/older2.bin"], False)
             before = P.tree(d)
             status, out = create(kind, d, arc, srcs, lay == "verbose")
             after = P.tree(d)
